@@ -181,9 +181,14 @@ fn has_sig(res: &RunResult, sig: &str) -> bool {
 }
 
 /// delta debugging over the step list, then per-step simplification; keeps only candidates with the same signature
+const MIN_STEP_BUDGET: usize = 150_000;
+
 pub fn minimise(prop: &str, cfg: &WorldCfg, steps: &[Step], sig: &str, budget: usize) -> Vec<Step> {
     let mut cur: Vec<Step> = steps.to_vec();
     let mut execs = 0usize;
+    // very long histories (marathons) cost seconds per execution: the budget also counts executed steps, so that
+    // minimisation stays bounded (and deterministic - no wall clock is read)
+    let budget = budget.min((MIN_STEP_BUDGET / steps.len().max(1)).max(40));
     // cut the tail after the violating step first
     if let Some(v) = run_history(prop, cfg, &cur, false).ev.violations.iter().find(|v| v.signature == sig) {
         let keep = (v.step + 1).min(cur.len());
@@ -609,24 +614,35 @@ pub fn run_batch(prop: &str, seed: u64, runs: u64, workers: usize, wall_cap_s: u
         new_sigs.retain(|x| x.0.contains(&f));
     }
     new_sigs.sort_by_key(|x| x.1);
-    for (sig, idx, v) in new_sigs.iter().take(6) {
-        let rr = &results[*idx];
-        let run = &rr.run;
-        let cfg0 = rr.world.clone().unwrap();
-        let min_steps = minimise(prop, &cfg0, &rr.steps, sig, min_budget);
-        let cfg = simplify_world(prop, &cfg0, &min_steps, sig);
-        let min_steps = if cfg != cfg0 { minimise(prop, &cfg, &min_steps, sig, min_budget / 3) } else { min_steps };
-        let check = run_history(prop, &cfg, &min_steps, false);
-        let (final_steps, viol) = match check.ev.violations.iter().find(|x| x.signature == *sig) {
-            Some(x) => (min_steps, x.clone()),
-            None => (rr.steps.clone(), v.clone()),
-        };
-        let cfg = if final_steps.len() == rr.steps.len() && cfg != cfg0 && !has_sig(&run_history(prop, &cfg, &final_steps, false), sig) { cfg0 } else { cfg };
-        violations.push((
-            ReplayFile { format: 1, property: prop.to_string(), signature: sig.clone(), seed, run: *run, world: cfg, steps: final_steps, violation: Some(viol), note: String::new() },
-            true,
-        ));
-    }
+    // the signatures are minimised independently of one another, one thread each; the order of the output is fixed
+    let minimised: Vec<(ReplayFile, bool)> = std::thread::scope(|sc| {
+        let handles: Vec<_> = new_sigs
+            .iter()
+            .take(6)
+            .map(|(sig, idx, v)| {
+                let rr = &results[*idx];
+                sc.spawn(move || {
+                    let run = &rr.run;
+                    let cfg0 = rr.world.clone().unwrap();
+                    let min_steps = minimise(prop, &cfg0, &rr.steps, sig, min_budget);
+                    let cfg = simplify_world(prop, &cfg0, &min_steps, sig);
+                    let min_steps = if cfg != cfg0 { minimise(prop, &cfg, &min_steps, sig, min_budget / 3) } else { min_steps };
+                    let check = run_history(prop, &cfg, &min_steps, false);
+                    let (final_steps, viol) = match check.ev.violations.iter().find(|x| x.signature == *sig) {
+                        Some(x) => (min_steps, x.clone()),
+                        None => (rr.steps.clone(), v.clone()),
+                    };
+                    let cfg = if final_steps.len() == rr.steps.len() && cfg != cfg0 && !has_sig(&run_history(prop, &cfg, &final_steps, false), sig) { cfg0 } else { cfg };
+                    (
+                        ReplayFile { format: 1, property: prop.to_string(), signature: sig.clone(), seed, run: *run, world: cfg, steps: final_steps, violation: Some(viol), note: String::new() },
+                        true,
+                    )
+                })
+            })
+            .collect();
+        handles.into_iter().map(|h| h.join().expect("minimiser thread")).collect()
+    });
+    violations.extend(minimised);
     let wall = t0.elapsed().as_secs_f64();
     let fault_kinds: BTreeMap<String, u64> = counters.iter().filter(|(k, _)| k.starts_with("fault_fired")).map(|(k, v)| (k.clone(), *v)).collect();
     let evidence = json!({
